@@ -61,6 +61,8 @@ pub fn run(cfg: &Cfg, rep: &mut Report) -> Result<(), String> {
         "c15" => c15::run(cfg, rep),
         #[cfg(feature = "pattern")]
         "c20" => c20::run(cfg, rep),
+        #[cfg(feature = "pattern")]
+        "c18pat" => c18::run_pattern(cfg, rep),
         "c16" => c16::run(cfg, rep),
         "c17" => c17::run(cfg, rep),
         "c18" => c18::run(cfg, rep),
